@@ -126,6 +126,7 @@ class Sched:
         self.leaked = 0
         self.probes = {}
         self.probe_hits = {}
+        self.probe_log = None         # optional [(probe name, thread idx)] in order
         self.loops = []               # every SimLoop created during the run (strong refs)
         if self.kind == 'pct':
             d, horizon = self.strategy[1], self.strategy[2]
@@ -448,6 +449,8 @@ def _ltrace_for(filename):
                     if pl is not None and ln in pl:
                         n = pl[ln]
                         s.probe_hits[n] = s.probe_hits.get(n, 0) + 1
+                        if s.probe_log is not None:
+                            s.probe_log.append((n, me.idx))
                     s.yield_point(True)
         return ltrace
     _LTRACERS[filename] = ltrace
